@@ -265,7 +265,7 @@ func runReplay(t *ReplayTemplate, clause string, vals map[string]string, workDir
 	args = append(args, "./"+t.Pkg)
 	cmd := exec.Command("go", args...)
 	cmd.Dir = repo
-	cmd.Env = append(os.Environ(), "GOFLAGS=-mod=mod", "GOPROXY=off", "GOSUMDB=off", "GOTOOLCHAIN=local", "GOVC_REPLAY_INPUT="+inFile)
+	cmd.Env = append(os.Environ(), "GOFLAGS=-mod=mod", "GOPROXY=off", "GOSUMDB=off", "GOTOOLCHAIN=local", "GOVC_REPLAY_INPUT="+inFile, "GOVC_REPLAY_CLAUSE="+clause)
 	out, _ := cmd.CombinedOutput()
 	s := string(out)
 	if len(s) > 8000 {
